@@ -67,6 +67,12 @@ func ClearTextPassword(validate func(ctx context.Context, database, username, pa
 			return ctx, err
 		}
 
+		// NOTE: a password message consists out of the password and nothing
+		// else, anything following the password is not send by a regular client.
+		if len(reader.Msg) != 0 {
+			return ctx, errors.New("unexpected data inside the password message")
+		}
+
 		ctx, valid, err := validate(ctx, params[ParamDatabase], params[ParamUsername], password)
 		if err != nil {
 			return ctx, err
